@@ -211,8 +211,8 @@ def gen_item_C02(rng, idx, tier, pid):
     # C02 quantifies over dendrograms obtained by compute, by prune (after arbitrary queries) and by load
     import props_history as ph
     item = gen_item(rng, idx, tier, pid)
-    if item['case']['kind'] == 'bigint':
-        return item            # prune operations carry float thresholds
+    if item['case']['kind'] in ('bigint', 'decimal'):
+        return item            # prune operations carry thresholds derived from the values
     r = idx % 4
     if r == 1:
         if rng.random() < 0.7:
@@ -327,7 +327,7 @@ def gen_item_C06(rng, idx, tier, pid):
     item = gen_item(rng, idx, tier, pid)
     if idx % 3 == 1:
         item['ops'] = [('reload', rng.choice(['hdf5', 'fits']))]
-    elif idx % 3 == 2 and len(item['case']['shape']) in (2, 3) and item['case']['kind'] != 'bigint':
+    elif idx % 3 == 2 and len(item['case']['shape']) in (2, 3) and item['case']['kind'] not in ('bigint', 'decimal'):
         # accessors after other uses of the dendrogram (a catalog over a periodic axis unwraps index copies)
         c = item['case']
         if rng.random() < 0.6 and c['shape'][-1] >= 3:
